@@ -18,6 +18,16 @@ def with_latest_from_(
         ) -> list[SingleAssignmentDisposable]:
             values = [NO_VALUE for _ in children]
 
+            # every call into the observer is made under the parent's lock:
+            # the sources may notify from different threads
+            def on_error(error: Exception) -> None:
+                with parent.lock:
+                    observer.on_error(error)
+
+            def on_completed() -> None:
+                with parent.lock:
+                    observer.on_completed()
+
             def subscribechild(
                 i: int, child: Observable[Any]
             ) -> SingleAssignmentDisposable:
@@ -28,7 +38,7 @@ def with_latest_from_(
                         values[i] = value
 
                 subscription.disposable = child.subscribe(
-                    on_next, observer.on_error, scheduler=scheduler
+                    on_next, on_error, scheduler=scheduler
                 )
                 return subscription
 
@@ -44,7 +54,7 @@ def with_latest_from_(
                 subscribechild(i, child) for i, child in enumerate(children)
             ]
             disp = parent.subscribe(
-                on_next, observer.on_error, observer.on_completed, scheduler=scheduler
+                on_next, on_error, on_completed, scheduler=scheduler
             )
             parent_subscription.disposable = disp
 
